@@ -8,6 +8,7 @@ for d in benign/*/; do
   [ -f "$p/checks.txt" ] || continue
   for id in $(sed -n 's/.*property=\([A-Z0-9]*\) rc=.*/\1/p' "$p/checks.txt"); do echo "$p/patch.diff $id" >> "$list"; done
 done
-cat "$list" | xargs -P 4 -L 1 sh -c './selftest "$0" "$1" quick 2>&1 | tail -1' | sort > out/benign_regression.txt
+[ -n "$ONLY" ] && { grep -E " ($ONLY)\$" "$list" > "$list.f"; mv "$list.f" "$list"; }   # ONLY="C03|C07": just these checks
+cat "$list" | xargs -P ${JOBS:-4} -L 1 sh -c './selftest "$0" "$1" quick 2>&1 | tail -1' | sort > out/benign_regression.txt
 rm -f "$list"
 grep -c "rc=0" out/benign_regression.txt; grep -v "rc=0" out/benign_regression.txt
